@@ -261,7 +261,7 @@ def c13_a1(ctx):
         n += 1
         if isinstance(arr, Arr) and arr.axes and not is_unk(arr.axes[0]):
             ctx.check(arr.axes[0] is sp, 'C13.A1', fi, '%s first axis' % nm, '%s has one row per %s' % (nm, sp),
-                      '%s has its first axis over %s, expected one row per %s' % (nm, arr.axes[0], sp))
+                      '%s has its first axis over %s, expected one row per %s' % (nm, arr.axes[0], sp), value=arr)
         else:
             ctx.undecided('C13.A1', fi, 'first axis of %s not typed (%s)' % (nm, arr), node)
     need = ['spikes.times.npy', 'spikes.samples.npy', 'spikes.amps.npy', 'spikes.depths.npy', 'clusters.channels.npy', 'clusters.peakToTrough.npy', 'clusters.amps.npy',
